@@ -184,32 +184,28 @@ def run(rep, tier, seed):
 # all lengths: inductive argument on the absorb loop (one abstract iteration from a havocked state, per case of the
 # predicates the code itself tests: first/later iteration x block length n = min(remaining, 8))
 def _decider(assume):
-    """comparisons between the shape symbols size (S) and remaining (R) under the case assumptions"""
+    """comparisons between linear forms in the shape symbols D (elements already absorbed) and R (elements remaining)
+    under the case assumptions (interval evaluation over the case's boxes)"""
     from ..poly import as_poly
+    INF = float('inf')
 
     def decide(pred, a, b):
         d = as_poly(a) - as_poly(b)
         vs = d.vars()
-        if not vs <= {'size', 'R'}:
+        if not vs <= {'D', 'R'}:
             return None
-        lo = {'size': assume['S'][0], 'R': assume['R'][0]}
-        hi = {'size': assume['S'][1], 'R': assume['R'][1]}
-        # special relation between R and size
-        if d == Poly.var('R') - Poly.var('size') or d == Poly.var('size') - Poly.var('R'):
-            rel = assume['R_vs_S']          # 'eq' or 'lt'
-            sgn = 1 if d == Poly.var('R') - Poly.var('size') else -1
-            val = 0 if rel == 'eq' else -1 * sgn      # sign of d
-            return {'eq': val == 0, 'ne': val != 0, 'ult': val < 0, 'ule': val <= 0, 'ugt': val > 0, 'uge': val >= 0}.get(pred)
-        if len(vs) != 1:
+        if any(len(m) != 1 or m[0][1] != 1 for m in d.d if m != ()):
             return None
-        x = list(vs)[0]
-        c = d.d.get(((x, 1),), 0)
-        k0 = d.d.get((), 0)
-        if c not in (1, -1):
-            return None
-        dl = c * (lo[x] if c > 0 else hi[x]) + k0
-        dh = c * (hi[x] if c > 0 else lo[x]) + k0
-        INF = float('inf')
+        dl = dh = d.d.get((), 0)
+        for x in vs:
+            c = d.d.get(((x, 1),), 0)
+            l, h = assume[x]
+            if c > 0:
+                dl += c * l
+                dh += c * h
+            else:
+                dl += c * h
+                dh += c * l
         for p, f in (('eq', lambda l, h: True if l == h == 0 else (False if l > 0 or h < 0 else None)),
                      ('ne', lambda l, h: False if l == h == 0 else (True if l > 0 or h < 0 else None)),
                      ('ult', lambda l, h: True if h < 0 else (False if l >= 0 else None)),
@@ -240,36 +236,60 @@ def inductive(rep, mod, cfg, variant, two):
         rep.incomplete(tagp, 'sponge-inductive', site, 'loop header carries %d variables, expected only `remaining`' % len(phis))
         return
     W = 12 * two
-    S = Poly.var('size')
+    D, R = Poly.var('D'), Poly.var('R')
 
-    def fresh(assume):
+    def fresh(assume, size):
         pt = PermTable()
         I = Interp(mod, perm_summaries(mod, pt), {'decide': _decider(assume)})
         rin = Region('input', 'param', extent=None, elem='field')
         rout = Region('output', 'param', extent=8 * 4 * two, elem='field')
         ps = [p for t, p in fi.fn.params]
-        env = {ps[0]: Ptr(rout, 0), ps[1]: Ptr(rin, 0), ps[2]: S}
+        env = {ps[0]: Ptr(rout, 0), ps[1]: Ptr(rin, 0), ps[2]: size}
         return pt, I, rin, rout, env
 
     def state_region(I, env):
-        regs = [v.reg for v in env.values() if isinstance(v, Ptr) and v.reg.kind == 'alloca' and v.reg.extent == 8 * W]
-        return regs[0] if len(regs) == 1 else None
+        regs = {id(v.reg): v.reg for v in env.values() if isinstance(v, Ptr) and v.reg.kind == 'alloca' and v.reg.extent == 8 * W}
+        return list(regs.values())[0] if len(regs) == 1 else None
 
     def lane(i, w):
         return i if two == 1 else lane_map(i, w)
 
+    def cval(x):
+        x = as_poly(x)
+        return x.cval() if x.isconst() else x
+
+    # what the loop-carried variable counts is read off its initial value: `size` = elements remaining (counts down),
+    # 0 = elements absorbed (counts up); anything else is a loop shape this argument does not know
+    try:
+        pt, I, rin, rout, env0 = fresh(dict(D=(0, 0), R=(5, INF)), R)
+        kind, prev, env1 = I.run_fragment(name, env0, fi.fn.order[0], stop_at=hdr)
+        if kind != 'stop':
+            raise Incomplete('the loop is not reached for size > 4')
+        init = None
+        for v, l in phis[0].a:
+            if l == prev:
+                init = as_poly(I.val(env1, v, phis[0].ty))
+        if init == R:
+            mode = 'down'
+        elif init is not None and init.isconst() and init.cval() == 0:
+            mode = 'up'
+        else:
+            raise Incomplete('the loop variable starts at %s: neither the remaining nor the absorbed element count' % (init,))
+    except (Incomplete, IRError, KeyError, Sink) as e:
+        rep.incomplete(tagp, 'sponge-inductive', site, str(e))
+        return
     cases = []
-    # first iteration
-    cases.append(('first n=8', dict(S=(8, INF), R=(8, INF), R_vs_S='eq'), S, 8, True))
-    # later iterations
-    cases.append(('later n=8', dict(S=(9, INF), R=(8, INF), R_vs_S='lt'), Poly.var('R'), 8, False))
+    # (label, boxes, D value, R value, n, first)
+    cases.append(('first n=8', dict(D=(0, 0), R=(8, INF)), 0, R, 8, True))
+    cases.append(('later n=8', dict(D=(8, INF), R=(8, INF)), D, R, 8, False))
     for r in range(1, 8):
-        cases.append(('later n=%d' % r, dict(S=(max(9, r + 1), INF), R=(r, r), R_vs_S='lt'), r, r, False))
+        cases.append(('later n=%d' % r, dict(D=(8, INF), R=(r, r)), D, r, r, False))
     ok_all = True
-    for label, assume, Rval, n, first in cases:
+    for label, assume, Dval, Rval, n, first in cases:
         tag = '%s %s' % (tagp, label)
         try:
-            pt, I, rin, rout, env0 = fresh(assume)
+            S = cval(as_poly(Dval) + as_poly(Rval))
+            pt, I, rin, rout, env0 = fresh(assume, S)
             kind, prev, env1 = I.run_fragment(name, env0, fi.fn.order[0], stop_at=hdr)
             if kind != 'stop':
                 raise Incomplete('the loop is not reached for size > 4')
@@ -277,16 +297,15 @@ def inductive(rep, mod, cfg, variant, two):
             if st is None:
                 raise Incomplete('the %d-element state array was not identified' % W)
             env2 = dict(env1)
-            env2[phis[0].dst] = Rval
+            xval = Rval if mode == 'down' else Dval
+            env2[phis[0].dst] = xval
             old = []
             if not first:
                 for i in range(W):
                     a = FV.atom('st[%d]' % i)
                     I.mem[(st, 8 * i)] = (a, 8)
                     old.append(a.nf)
-            else:
-                for i in range(W):
-                    I.mem.pop((st, 8 * i), None)
+            # first iteration: the state is whatever the code before the loop established (nothing is assumed)
             I.reads = []
             I.writes = []
             kind, prev2, env3 = I.run_fragment(name, env2, hdr, skip_phis=True, stop_at=hdr)
@@ -297,9 +316,10 @@ def inductive(rep, mod, cfg, variant, two):
                 if l == prev2:
                     nxt = I.val(env3, v, phis[0].ty)
             probs = []
-            if as_poly(nxt) != as_poly(Rval) - n:
-                probs.append("remaining' = %s, expected remaining - %d" % (nxt, n))
-            off = S - as_poly(Rval)
+            if as_poly(nxt) != as_poly(xval) + (-n if mode == 'down' else n):
+                probs.append("loop variable' = %s, expected %s %s %d" % (nxt, xval, '-' if mode == 'down' else '+', n))
+            off = as_poly(Dval)
+            S = as_poly(S)
             # expected permutation inputs
             for w in range(two):
                 base = off + (S if w == 1 else 0)
@@ -342,12 +362,14 @@ def inductive(rep, mod, cfg, variant, two):
     # exit: remaining = 0
     tag = tagp + ' exit'
     try:
-        assume = dict(S=(5, INF), R=(0, 0), R_vs_S='lt')
-        pt, I, rin, rout, env0 = fresh(assume)
+        assume = dict(D=(5, INF), R=(0, 0))
+        pt, I, rin, rout, env0 = fresh(assume, D)
         kind, prev, env1 = I.run_fragment(name, env0, fi.fn.order[0], stop_at=hdr)
         st = state_region(I, env1)
+        if kind != 'stop' or st is None:
+            raise Incomplete('the loop head / the %d-element state array was not identified' % W)
         env2 = dict(env1)
-        env2[phis[0].dst] = 0
+        env2[phis[0].dst] = 0 if mode == 'down' else D
         for i in range(W):
             I.mem[(st, 8 * i)] = (FV.atom('st[%d]' % i), 8)
         I.reads = []
